@@ -285,9 +285,54 @@ def monitor(world):
     return bad
 
 
-def f18_class(world):
-    """The dynamic class of finding F18: a worker thread entered send_continue()."""
+def worker_send_continue(world):
+    """A worker thread entered send_continue() (the class of executions C04_wire_partial excludes)."""
     return any(e[1] == "send_continue" and e[2] != "io" for e in world.sched.events)
+
+
+def f18_class(world):
+    """The narrow dynamic class of finding F18: a worker-side send_continue() whose critical
+    section (entry .. release of outbuf_lock) overlaps in time an UNLOCKED _flush_some of the I/O
+    thread (handle_write read `requests == []` .. the read of close_when_flushed that follows
+    the flush).  Only then can two threads be inside _flush_some on the same buffers."""
+    ev = world.sched.events
+    ch = world.channel
+    if ch is None:
+        return False
+    ob = object.__getattribute__(ch, "outbuf_lock").lock.name
+    # worker windows
+    wwin = []
+    open_w = {}
+    for i, (th, kind, detail) in enumerate(ev):
+        if kind == "send_continue" and detail != "io":
+            open_w[th] = i
+        elif kind == "release" and detail == ob and th in open_w:
+            wwin.append((open_w.pop(th), i))
+        elif kind in ("end", "crash") and th in open_w:
+            wwin.append((open_w.pop(th), i))
+    for th, i in open_w.items():
+        wwin.append((i, len(ev)))
+    if not wwin:
+        return False
+    # I/O windows: R:requests directly followed (in the I/O thread's own sequence of modelled
+    # operations) by R:outbufs is the unlocked choice of handle_write
+    io = [(i, e) for i, e in enumerate(ev) if e[0] == "io" and (
+        e[1] in ("R:requests", "R:outbufs", "R:close_when_flushed", "R:total_outbufs_len", "try_acquire", "acquire",
+                 "sock_send", "W:total_outbufs_len", "W:will_close", "R:will_close", "R:connected", "select", "release"))]
+    iwin = []
+    k = 0
+    while k + 1 < len(io):
+        if io[k][1][1] == "R:requests" and io[k + 1][1][1] == "R:outbufs" and k > 0 and io[k - 1][1][1] == "R:connected":
+            start = io[k][0]
+            m = k + 1
+            while m < len(io) and io[m][1][1] != "R:close_when_flushed":
+                m += 1
+            end = io[m][0] if m < len(io) else len(ev)
+            iwin.append((start, end))
+            k = m
+        else:
+            k += 1
+    return any(a < d and c < b for a, b in wwin for c, d in iwin)
 
 
 # ----------------------------------------------------------------------------
